@@ -21,7 +21,9 @@ func init() {
 func famSesReent(t *testing.T, r *Rec) {
 	cfg := "ses cfg 25000 20000 1000 100000 default 1 0 - 0 -"
 	reentOverlap(r, cfg)
-	events := []string{"packetCreate", "flush", "drain", "packet", "message", "close"}
+	reentStalledUpload(r, cfg)
+	reentCallbackWindow(r, cfg)
+	events := []string{"packetCreate", "flush", "drain", "packet", "message", "close", "cb"}
 	if r.thorough() {
 		events = append(events, "heartbeat", "upgrading", "upgrade")
 	}
@@ -40,6 +42,8 @@ func famSesReent(t *testing.T, r *Rec) {
 				switch ev {
 				case "packetCreate", "flush", "drain":
 					lines = append(lines, "ses send s0 t 6d31 0 0 -")
+				case "cb": // the callback of a send calls back into the session when its batch has drained
+					lines = append(lines, "ses send s0 t 6d31 0 1 -")
 				case "packet", "message":
 					if tr == "polling" {
 						lines = append(lines, "ses post s0 t 1 346331")
@@ -63,6 +67,10 @@ func famSesReent(t *testing.T, r *Rec) {
 				// let the client read what is owed to it
 				if tr == "polling" {
 					lines = append(lines, "ses poll s0", "ses poll s0")
+				}
+				if act != "send" {
+					// a Close from inside a transport's drain event waits for the next drain or the close timeout: bounded
+					lines = append(lines, "ses adv 31000")
 				}
 				lines = append(lines, "ses obs")
 				outs, fault := runIsolated(lines, 12*time.Second)
@@ -170,5 +178,74 @@ func reentOverlap(r *Rec, cfg string) {
 			r.Violate("C11", fmt.Sprintf("C11/overlap-not-refused/during-dispatch/proto=%d", proto),
 				fmt.Sprintf("a data request overlapping one whose packets were still being dispatched was answered %d, want 400", status[2]), lines)
 		}
+	}
+}
+
+// reentStalledUpload: a second data request arrives while the first is still uploading its body (C11).
+func reentStalledUpload(r *Rec, cfg string) {
+	a := encodeV4Payload([]epkt{{'4', "t", []byte("a1")}})
+	b := encodeV4Payload([]epkt{{'4', "t", []byte("b1")}})
+	lines := []string{cfg, "ses hs polling 4 0 -", "ses postslow s0 " + hx(a), "ses post s0 t 1 " + hx(b), "ses unpark", "ses obs"}
+	outs, fault := runIsolated(lines, 12*time.Second)
+	r.scenarios++
+	r.Cover("reent/overlapping-post-during-upload")
+	if fault != "" && !strings.Contains(fault, "main_bubble_goroutine_has_exited") {
+		r.Violate("C09", fmt.Sprintf("C09/%s/overlapping-post-during-upload", strings.SplitN(fault, ":", 2)[0]), "a data request arriving while the previous one was still uploading made the server "+fault, lines)
+		return
+	}
+	status := map[int]int{}
+	closed := ""
+	for _, out := range outs {
+		if out == "-" || out == "ok" {
+			continue
+		}
+		o := parseObs(out)
+		for _, rs := range o.resps {
+			status[rs.req] = rs.status
+		}
+		for _, e := range o.events {
+			if e.who == "s0" && e.name == "close" {
+				closed = e.args[0]
+			}
+		}
+	}
+	if status[2] != 400 || closed != "transport_error" {
+		r.Violate("C11", "C11/overlap-not-refused/during-upload",
+			fmt.Sprintf("a data request overlapping one that was still uploading its body was answered %d (want 400) and the session closed with %q (want transport_error)", status[2], closed), lines)
+	}
+}
+
+// reentCallbackWindow: a Send with a callback is still inside its packetCreate event when the transport
+// becomes ready and an earlier packet is flushed: the callback belongs to the later batch (C18).
+func reentCallbackWindow(r *Rec, cfg string) {
+	lines := []string{cfg, "ses hs polling 4 0 -", "ses arm nowhere", "ses send s0 t 6131 0 0 -", "ses react packetCreate park",
+		"ses send s0 t 6231 0 1 -", "ses poll s0", "ses unpark", "ses poll s0", "ses obs"}
+	outs, fault := runIsolated(lines, 12*time.Second)
+	r.scenarios++
+	r.Cover("reent/callback-of-a-send-still-in-packetCreate")
+	if fault != "" && !strings.Contains(fault, "main_bubble_goroutine_has_exited") {
+		r.Violate("C18", "C18/reentrant-listener/"+strings.SplitN(fault, ":", 2)[0]+"/send-parked-in-packetCreate", "a flush while a Send was still inside its packetCreate event made the server "+fault, lines)
+		return
+	}
+	flushes, cbAfter := 0, -1
+	for _, out := range outs {
+		if out == "-" || out == "ok" {
+			continue
+		}
+		for _, e := range parseObs(out).events {
+			if e.who != "s0" {
+				continue
+			}
+			if e.name == "flush" {
+				flushes++
+			}
+			if e.name == "cb" && cbAfter < 0 {
+				cbAfter = flushes
+			}
+		}
+	}
+	if cbAfter >= 0 && cbAfter < 2 {
+		r.Violate("C18", "C18/callback/before-flush-of-its-batch/send-parked-in-packetCreate",
+			fmt.Sprintf("the callback of the second send ran after %d flush event(s): before the flush event of the batch that carries its packet", cbAfter), lines)
 	}
 }
